@@ -8,7 +8,9 @@ import subprocess
 import compilecheck as cc
 import gen_harness
 import pipeline as pl
-from world import Rng, World, amounts
+from fractions import Fraction
+
+from world import Rng, World, amounts, enc_frac
 
 ID = "C19"
 LEAN_MODULES = ["QtyModel.Props.C19"]
@@ -109,6 +111,22 @@ def corpus_lines(w, rng, tname):
             lb, b = rng.choice(amounts(w.be, rng, 2))
             lines += [f"conv {tname} {i} {j} {a}", f"add {tname} {i} {a} {j} {b}", f"cmp {tname} {i} {a} {j} {b}",
                       f"fmt {tname} {i} {a} nr10 14 3"]
+            if t["kind"] == "withref":
+                lines += [f"sub {tname} {i} {a} {j} {b}", f"div {tname} {i} {a} {j} {b}"]
+        la, a = rng.choice(amounts(w.be, rng, 2))
+        lk, k = rng.choice(amounts(w.be, rng, 2))
+        lines += [f"smul {tname} {i} {a} {k}", f"new {tname} {i} {a}", f"fmtu {tname} {i} sr00 9 -", f"ser {tname} {i} {a}"]
+        if t["kind"] == "withref":
+            lines += [f"fit {tname} {a}", f"fscale {tname} {a}"]
+    if tname == "Temperature":
+        # the predefined conversion table: every ordered pair x a dense grid of one-decimal amounts (most of the
+        # products amount x 1.8 / amount x 0.5555... are inexact in binary64) and the usual amount classes
+        lines.append("temp rows")
+        grid = [enc_frac(w.be, Fraction(k, 10)) for k in range(-400, 1201, 3)] + [a for _, a in amounts(w.be, rng, 6)]
+        for i in range(n):
+            for j in range(n):
+                for a in grid:
+                    lines.append(f"temp conv {i} {a} {j}")
     # every sign class of zero and a negative amount under the flags that treat the sign specially
     for i in range(n):
         for a in ("x8000000000000000", "x0000000000000000", "xbff8000000000000"):
@@ -144,14 +162,15 @@ def extra(tier, seed):
                                   oracle="FAIL:" + what))
         # feature independence of results: a harness built with ONE feature vs the full harness
         rng = Rng(seed * 7919 + 19)
-        picks = FEATURES if tier == "thorough" else [rng.choice(FEATURES)]
+        # `temperature` is the one module with run-time code of its own (the conversion table): always compared
+        picks = FEATURES if tier == "thorough" else ["temperature", rng.choice([f for f in FEATURES if f != "temperature"])]
         for feat in picks:
             vdir = os.path.join(root, f"harness_{feat}")
             mods_needed = [feat]
             # the minimal configuration: this one feature (and what it pulls in), WITHOUT the standard library
             gen_harness.write_variant(pl.VERIF, pl.REPO, vdir, [feat], closure_modules(tables, feat), default_features=False)
             env = dict(pl.ENV, CARGO_TARGET_DIR=os.path.join(pl.CACHE, "target-gen-c19-min"), RUSTFLAGS="-Awarnings")
-            hf = "serde" + (",temp" if feat == "temperature" else "")   # serde on: same as the full harness
+            hf = "serde,g_ser" + (",temp" if feat == "temperature" else "")   # serde on: same as the full harness
             p = subprocess.run(["cargo", "build", "--features", hf, "--message-format=short"], cwd=vdir, env=env,
                                stdout=subprocess.PIPE, stderr=subprocess.STDOUT, text=True, timeout=3600)
             if p.returncode != 0:
